@@ -133,9 +133,9 @@ Section Bip32.
   Definition xprv_to_string (x : xprv) : string := b58_encode (with_checksum (xprv_payload x)).
   Definition xpub_to_string (x : xpub) : string := b58_encode (with_checksum (xpub_payload x)).
 
-  (* ---------------------------------------------------------------- from_string_impl (as repaired, 15973cd)
+  (* ---------------------------------------------------------------- from_string_impl (as repaired, 15973cd, 7aed395)
      A Cursor over the decoded bytes: read_u32 BE must equal the version constant; read_u8 (depth);
-     read_exact(4); read_u32 BE; read_exact(32); [private: read_u8 must be 0;] read_exact(32 | 33);
+     read_exact(4); read_u32 BE; depth 0 with a non-zero index or fingerprint -> Err; read_exact(32); [private: read_u8 must be 0;] read_exact(32 | 33);
      key validation; read_exact(4); then `decoded.len() != position` -> Err; checksum over
      decoded[..position-4].  Every failure is an Err. *)
   Definition xkey_header (version : N) (bs : bytes) : outcome (N * bytes * N * bytes * bytes) :=
@@ -144,6 +144,8 @@ Section Bip32.
     do (d, c1) <- of_option (read_exact 1 c0);
     do (fp, c2) <- of_option (read_exact 4 c1);
     do (ix, c3) <- of_option (read_exact 4 c2);
+    (* 7aed395: a master key has no parent *)
+    if (be_val d =? 0)%N && (negb (be_val ix =? 0)%N || negb (bytes_eqb fp (zeros 4))) then Err else
     do (cc, c4) <- of_option (read_exact 32 c3);
     Ok (be_val d, fp, be_val ix, cc, c4).
 
